@@ -250,7 +250,12 @@ func c16decode(c *mon.Ctx, b []byte, cls string) {
 	}
 	// SetBigInt with the same value, its negation and SetString
 	var zb fr.Element
+	vSnap := new(big.Int).Set(vBE)
 	zb.SetBigInt(vBE)
+	if vBE.Cmp(vSnap) != 0 {
+		c.Fail("input-modified/SetBigInt", "SetBigInt modified its argument "+vSnap.Text(16), nil)
+		vBE.Set(vSnap)
+	}
 	check("SetBigInt", &zb, vBE)
 	neg := new(big.Int).Neg(vBE)
 	negSnap := new(big.Int).Set(neg)
